@@ -297,6 +297,46 @@ func checkC19NilArgs(w *World, r *Report) {
 			ru.Check("store "+dest+" in "+FuncName(fn), w.Pos(st.Pos()), "the function value was tested non-nil (ErrInvalidConfig otherwise)", okk, why)
 		})
 	}
+	// exported entry points that store a function-typed parameter into a route or the router themselves (NewRoute builds
+	// the route every registration path uses; it is callable directly and its result goes to HandleRoute/UpdateRoute)
+	for _, fn := range w.FoxFuncs() {
+		if isTestHelper(w, fn) || fn.Parent() != nil || fn.Object() == nil || !fn.Object().Exported() {
+			continue
+		}
+		eachInstr(fn, func(in ssa.Instruction) {
+			st, ok := in.(*ssa.Store)
+			if !ok || !isFuncT(st.Val.Type()) {
+				return
+			}
+			prm, isParam := st.Val.(*ssa.Parameter)
+			if !isParam {
+				return
+			}
+			_, f, ok := fieldOfAddr(st.Addr)
+			if !ok {
+				return
+			}
+			dest := w.FieldOwner(f)
+			if !(strings.HasPrefix(dest, "Router.") || strings.HasPrefix(dest, "Route.")) {
+				return
+			}
+			okk, why := false, "no dominating nil test of parameter "+prm.Name()
+			for _, ft := range factsAtBlock(st.Block()) {
+				bo, isBin := ft.Cond.(*ssa.BinOp)
+				if !isBin || !isNilConst(bo.Y) || bo.X != ssa.Value(prm) {
+					continue
+				}
+				if (bo.Op == token.EQL && !ft.Val) || (bo.Op == token.NEQ && ft.Val) {
+					if errBranchOK(fn, ft.Cond, "ErrInvalidRoute") || errBranchOK(fn, ft.Cond, "ErrInvalidConfig") {
+						okk, why = true, "nil test with an ErrInvalidRoute/ErrInvalidConfig error on the failing branch"
+					} else {
+						why = "nil test present but its failing branch does not return ErrInvalidRoute or ErrInvalidConfig"
+					}
+				}
+			}
+			ru.Check("store "+dest+" in "+FuncName(fn), w.Pos(st.Pos()), "the function-typed parameter was tested non-nil (error otherwise): a route with a nil handler panics when it is served", okk, why)
+		})
+	}
 	for _, m := range []struct {
 		name string
 		arg  int
